@@ -75,6 +75,46 @@ Proof.
   destruct data2; [eauto|]. inversion H; subst. eauto.
 Qed.
 
+(* a key, once in the raw map, stays; a property with a decodable default gets one *)
+Lemma xr_amem_app {A} k (a b : list (string * A)) : amem k a = true -> amem k (a ++ b) = true.
+Proof. unfold amem. rewrite alookup_app. destruct (alookup k a); [reflexivity | discriminate]. Qed.
+
+Lemma xr_amem_snoc {A} k (a : list (string * A)) v : amem k (a ++ [(k, v)]) = true.
+Proof. apply xr_amem_in. rewrite map_app, in_app_iff. right. now left. Qed.
+
+Lemma xr_amem_raw_set k k' y (a : raw) : amem k a = true -> amem k (raw_set k' y a) = true.
+Proof.
+  intros H. destruct (amem k' a) eqn:E.
+  - destruct (raw_set_present k' y a E) as [Hf _]. apply xr_amem_in. rewrite Hf. apply xr_amem_in. exact H.
+  - unfold raw_set. rewrite E. now apply xr_amem_app.
+Qed.
+
+Lemma xd_fold_mem (e : xenv) (l : list (string * xproperty)) : forall (a : raw) k,
+  (amem k a = true \/ exists np, In np l /\ fst np = k /\ xhas_default e np = true) ->
+  amem k (fold_left (fun a np =>
+                       if amem (fst np) a then a
+                       else match p_default (snd np) with
+                            | Some txt => match xdecode_default (xe_or e) (snd np) txt with
+                                          | Some d => (a ++ [(fst np, d)])%list
+                                          | None => a
+                                          end
+                            | None => a
+                            end) l a) = true.
+Proof.
+  unfold xproperty in *.
+  induction l as [|np0 l IH]; intros a k H; cbn [fold_left].
+  - destruct H as [H | (np & [] & _)]. exact H.
+  - apply IH. unfold xproperty in *. destruct H as [H | (np & [<- | Hin] & <- & Hd)].
+    + left. destruct (amem (fst np0) a); [exact H|]. destruct (p_default (snd np0)); [|exact H].
+      destruct (xdecode_default _ _ _); [|exact H]. now apply xr_amem_app.
+    + left. unfold xhas_default in Hd. unfold xproperty in *.
+      destruct (amem (fst np0) a) eqn:Ea; [exact Ea|].
+      destruct (p_default (snd np0)) as [txt|]; [|discriminate Hd].
+      destruct (xdecode_default (xe_or e) (snd np0) txt); [|discriminate Hd].
+      apply xr_amem_snoc.
+    + right. exists np. auto.
+Qed.
+
 Section Shape.
 Variable words : list (string * bool).
 Variable pu : units -> string -> option fl.
@@ -146,6 +186,7 @@ Lemma xunser_struct_shape f e id u props si v n :
   exists r2 : raw,
     NoDup (map fst r2) /\ (forall k, In k (map fst r2) -> In k (map fst props)) /\
     (forall k x, In (k, x) r2 -> exists p d, In (k, p) props /\ xunser f e (p_type p) d = Ok x) /\
+    (forall np, In np props -> xhas_default e np = true -> amem (fst np) r2 = true) /\
     xcheck_rules props (fun k => amem k r2) = Ok tt /\ xto_struct e si r2 = Ok n.
 Proof.
   intros Hu H. rewrite (xunser_S words pu) in H. cbv beta iota zeta in H.
@@ -176,10 +217,22 @@ Proof.
       apply bind_ok in Hst as (x & _ & Hst). inversion Hst; subst.
       apply raw_good_set; [exact Ha | now apply Hin_names]. }
     destruct G2 as [Hnd Hkeys].
-    split; [exact Hnd|]. split; [exact Hkeys|]. split; [|split; [exact Hrules | exact Hto]].
-    intros k x Hin.
-    apply (xu_fold_done f e props props [] r1' r2 (fun np H0 => H0)) in Hr2; [|intros ? ? ? []].
-    apply (Hr2 k x Hin). cbn [app]. apply Hkeys. apply in_map_iff. exists (k, x). auto. }
+    split; [exact Hnd|]. split; [exact Hkeys|]. split; [|split; [|split; [exact Hrules | exact Hto]]].
+    - intros k x Hin.
+      apply (xu_fold_done f e props props [] r1' r2 (fun np H0 => H0)) in Hr2; [|intros ? ? ? []].
+      apply (Hr2 k x Hin). cbn [app]. apply Hkeys. apply in_map_iff. exists (k, x). auto.
+    - intros np Hin Hd.
+      match type of Hr1' with fold_left _ _ (Ok ?r1) = _ => assert (M1 : amem (fst np) r1 = true) end.
+      { apply xd_fold_mem. right. exists np. auto. }
+      assert (M1' : amem (fst np) r1' = true).
+      { revert Hr1'. apply (xr_fold_bind_inv _ (fun r : raw => amem (fst np) r = true)); [exact M1|].
+        intros a np0 a' _ Ha Hst.
+        destruct (amem (fst np0) r0); [inversion Hst; subst; exact Ha|].
+        apply xsub_defaults_shape in Hst as [-> | (y & ->)]; [exact Ha | now apply xr_amem_raw_set]. }
+      revert Hr2. apply (xr_fold_bind_inv _ (fun r : raw => amem (fst np) r = true)); [exact M1'|].
+      intros a np0 a' _ Ha Hst. unfold xubody in Hst.
+      destruct (alookup (fst np0) a); [|inversion Hst; subst; exact Ha].
+      apply bind_ok in Hst as (x & _ & Hst). inversion Hst; subst. now apply xr_amem_raw_set. }
   (* not a map: the single-property shorthand *)
   all: destruct props as [|[name p] [|? ?]]; try discriminate.
   all: apply bind_ok in H as (x & Hx & H); apply bind_ok in H as (u0 & Hrules & Hto); destruct u0.
@@ -188,6 +241,7 @@ Proof.
   all: split; [cbn; constructor; [intros [] | constructor]|].
   all: split; [intros k0 H0; exact H0|].
   all: split; [intros k0 x0 [E | []]; inversion E; subst; eexists p, _; split; [now left | exact Hx]|].
+  all: split; [intros np0 [<- | []] _; unfold amem; cbn; rewrite String.eqb_refl; reflexivity|].
   all: split; [|exact Hto].
   all: apply xcheck_rules_ok; intros nm q Hq; apply (proj1 (xcheck_rules_ok _ _) Hrules) in Hq.
   all: eapply xrule_holds_ext; [|exact Hq]; intros k0; unfold amem; cbn; destruct (String.eqb k0 name); reflexivity.
@@ -258,7 +312,7 @@ Theorem x_struct_roundtrip_partial : forall f f' e id u props si v n,
 Proof.
   intros f f' e id u props si v n Hdesc Hu Hch Hun.
   pose proof (xd_nodup e props si Hdesc) as Hndp.
-  destruct (xunser_struct_shape _ _ _ _ _ _ _ _ Hu Hun) as (r2 & Hnd & Hkeys & Hvals & Hrules & Hto).
+  destruct (xunser_struct_shape _ _ _ _ _ _ _ _ Hu Hun) as (r2 & Hnd & Hkeys & Hvals & Hdef & Hrules & Hto).
   (* the property a key belongs to is unique *)
   assert (Hval : forall k x p, In (k, x) r2 -> In (k, p) props -> exists d, xunser f e (p_type p) d = Ok x).
   { intros k x p Hin Hp. destruct (Hvals k x Hin) as (p' & d & Hp' & Hd).
@@ -274,7 +328,9 @@ Proof.
     destruct np as [k p]. specialize (Hr k p Hin). unfold xrule_holds in Hr. cbn [fst] in Hn.
     assert (Ha : amem k r2 = false) by (now apply amem_false). rewrite Ha in Hr. destruct Hr as (Hreq & _).
     pose proof (xd_opt e props si Hdesc (k, p) Hin) as Ho. apply andb_prop in Ho as [Ho _]. cbn [snd] in Ho.
-    rewrite Hreq in Ho. exact Ho. }
+    rewrite Hreq in Ho. cbn [orb] in Ho.
+    destruct (xhas_default e (k, p)) eqn:Ed; [|exact Ho].
+    pose proof (Hdef (k, p) Hin Ed) as Hm. cbn [fst] in Hm. congruence. }
   assert (E2 : forall np x, In np props -> xfield_value e si sv np = Some x -> alookup (fst np) r2 = Some x).
   { intros np x Hin Hx. destruct (alookup (fst np) r2) as [x0|] eqn:Ea.
     - specialize (Hext np Hin). rewrite Ea in Hext. destruct Hext as [H | [H _]]; congruence.
